@@ -1,7 +1,7 @@
 (** * CasesModels: evaluation helpers for the correspondence runs of the implementation models
     (attacks C09, evaluation C15).  FENs arrive as Coq [string] literals. *)
-From Coq Require Import ZArith NArith List Bool String.
-From FG Require Import CasesLib AttacksImpl EvalImpl.
+From Coq Require Import ZArith NArith List Bool String Lia.
+From FG Require Import Geom Rules CasesLib AttacksImpl EvalImpl EvalProofsA.
 Import ListNotations.
 
 (* (fen, attw, attb, attackers samples, in-check, gives-check per move, legality samples) *)
@@ -19,6 +19,307 @@ Fixpoint mism_from {A} (ok : A -> bool) (i : nat) (l : list A) : list nat :=
   end.
 Definition att_mismatches := mism_from att_case 0.
 
-Definition eval_case (c : string * Z * bool * bool * Z) : bool :=
-  let '(fen, gp, lz, adv, obs) := c in eval_case_ok (str_of_string fen) gp lz adv obs.
-Definition eval_mismatches := mism_from eval_case 0.
+(** ** C15: a tabulated form of the evaluation model, for speed only.
+    [EvalImpl.av_of] and [EvalImpl.ring] are functions that recompute the attack rays / the king
+    square at every call (about 0.85 s per evaluation with UseAttacksInEval under vm_compute).
+    [av_tab] / [rg_tab] hold the same values in lists, computed once per position and shared by
+    all switch vectors; [eval_core_tab_eq] shows that nothing else changed:
+    [evaluate_tab cfg p gp = evaluate cfg p gp]. *)
+Definition tab64 (f : N -> bool) : N -> bool :=
+  let l := map f squares64 in fun t => nth (N.to_nat t) l false.
+Definition by_colour {A} (w b : A) (c : N) : A := if (c =? WHITE)%N then w else b.
+
+Definition av_tab (p : pos) : aview :=
+  let b := brd p in
+  let tg := map (piece_targets b) squares64 in
+  let tgof := fun s => nth (N.to_nat s) tg [] in
+  let own := fun c => filter (own_nonpawn b c) squares64 in
+  let ow := own WHITE in let ob := own BLACK in
+  let aw := tab64 (fun t => existsb (fun s => mem t (tgof s)) ow) in
+  let ab := tab64 (fun t => existsb (fun s => mem t (tgof s)) ob) in
+  let occ := fun c => tab64 (fun t => is_col (at_ b t) c) in
+  let occw := occ WHITE in let occb := occ BLACK in
+  let mobc := fun (o : list N) (oc : N -> bool) =>
+    fold_right (fun s acc => (let l := tgof s in popcnt (fun t => mem t l && negb (oc t))) + acc)%Z 0%Z o in
+  let mw := mobc ow occw in let mb := mobc ob occb in
+  mkav (fun c sq => if own_nonpawn b c sq then (let l := tgof sq in fun t => mem t l) else fun _ => false)
+       (by_colour aw ab) (by_colour mw mb).
+Definition rg_tab (b : list N) : N -> N -> bool :=
+  let rw := tab64 (ring b WHITE) in let rb := tab64 (ring b BLACK) in by_colour rw rb.
+
+Local Open Scope Z_scope.
+
+(* EvalImpl.eval_core_av with the king ring as an argument (convertible: [eval_core_rg_ring]) *)
+Definition eval_core_rg (cfg : eval_cfg) (av : aview) (rg : N -> N -> bool) (p : pos) (gp : Z) : Z :=
+  if insufficient_material p then 0 else
+  let dir := if (stm p =? WHITE)%N then 1 else -1 in
+  let g := gpf gp in
+  let mat := material p WHITE - material p BLACK in
+  let mid0 := mat + (psq_mid p WHITE - psq_mid p BLACK) in
+  let end0 := mat + (psq_end p WHITE - psq_end p BLACK) in
+  let v0 := interp mid0 end0 g in
+  if use_lazy cfg && (Z.abs v0 >? threshold cfg gp) then v0 * dir else
+  let mid1 := if use_adv cfg then mid0 + (adv_mid cfg av p WHITE - adv_mid cfg av p BLACK) else mid0 in
+  let end1 := if use_adv cfg then end0 + (adv_end cfg p WHITE - adv_end cfg p BLACK) else end0 in
+  let mob := use_attacks cfg && use_mobility cfg in
+  let mid2 := if mob then mid1 + (av_mob av WHITE - av_mob av BLACK) * mobility_bonus cfg else mid1 in
+  let end2 := if mob then end1 + mid2 else end1 in
+  let kw := king_term cfg av rg WHITE in let kb := king_term cfg av rg BLACK in
+  let mid3 := if use_king cfg then mid2 + fst kw - fst kb else mid2 in
+  let end3 := if use_king cfg then end2 + snd kw - snd kb else end2 in
+  let mid4 := mid3 + tempo cfg * dir in
+  interp mid4 end3 g * dir.
+Lemma eval_core_rg_ring cfg av p gp : eval_core_rg cfg av (ring (brd p)) p gp = eval_core_av cfg av p gp.
+Proof. reflexivity. Qed.
+
+(* the position is checked once, the tables are built once, then one value per settings record *)
+Definition evaluate_tab_with (av : aview) (rg : N -> N -> bool) (cfg : eval_cfg) (p : pos) (gp : Z) : option Z :=
+  if negb (pos_ok p) then None
+  else if negb ((0 <=? gp) && (gp <=? Tables_gen.c_game_phase_max)) then None
+  else Some (eval_core_rg cfg av rg p gp).
+Definition evaluate_tab (cfg : eval_cfg) (p : pos) (gp : Z) : option Z :=
+  evaluate_tab_with (av_tab p) (rg_tab (brd p)) cfg p gp.
+
+(* agreement on the domain the evaluation reads: colours 0/1, squares 0..63 *)
+Definition av_agree (a1 a2 : aview) : Prop :=
+  (forall c sq t, (c < 2)%N -> (sq < 64)%N -> (t < 64)%N -> av_from a1 c sq t = av_from a2 c sq t) /\
+  (forall c t, (c < 2)%N -> (t < 64)%N -> av_all a1 c t = av_all a2 c t) /\
+  (forall c, (c < 2)%N -> av_mob a1 c = av_mob a2 c).
+Definition rg_agree (r1 r2 : N -> N -> bool) : Prop :=
+  forall c t, (c < 2)%N -> (t < 64)%N -> r1 c t = r2 c t.
+
+Lemma nth_map_sq64 {A} (f : N -> A) (d : A) s : (s < 64)%N -> nth (N.to_nat s) (map f squares64) d = f s.
+Proof.
+  intros Hs. rewrite (nth_indep _ d (f 0%N)) by (rewrite map_length; cbn; lia).
+  rewrite map_nth, nth_sq64 by exact Hs. reflexivity.
+Qed.
+Lemma tab64_spec f t : (t < 64)%N -> tab64 f t = f t.
+Proof. intros Ht. unfold tab64. apply nth_map_sq64, Ht. Qed.
+Lemma colour_cases c : (c < 2)%N -> c = WHITE \/ c = BLACK.
+Proof. unfold WHITE, BLACK. lia. Qed.
+Lemma by_colour_spec {A} (f : N -> A) c : (c < 2)%N -> by_colour (f WHITE) (f BLACK) c = f c.
+Proof. intros Hc. destruct (colour_cases c Hc) as [-> | ->]; reflexivity. Qed.
+
+Lemma existsb_filter {A} (f g : A -> bool) l : existsb f (filter g l) = existsb (fun x => g x && f x) l.
+Proof.
+  induction l as [|a l IH]; [reflexivity|]. cbn [filter existsb]. destruct (g a); cbn [existsb andb orb]; rewrite IH; reflexivity.
+Qed.
+Lemma sum_filter (h : N -> Z) (g : N -> bool) l :
+  fold_right (fun s acc => h s + acc) 0 (filter g l) = fold_right (fun s acc => (if g s then h s else 0) + acc) 0 l.
+Proof.
+  induction l as [|a l IH]; [reflexivity|]. cbn [filter fold_right]. destruct (g a); cbn [fold_right]; rewrite IH; reflexivity.
+Qed.
+Lemma bbnum_sum64 f : bbnum f = sum64 (fun t => if f t then 2 ^ Z.of_N t else 0).
+Proof. reflexivity. Qed.
+Lemma bbnum_ext64 f g : (forall t, (t < 64)%N -> f t = g t) -> bbnum f = bbnum g.
+Proof. intros H. rewrite !bbnum_sum64. apply sum64_ext. intros t Ht. rewrite H by exact Ht. reflexivity. Qed.
+
+Lemma rg_tab_agree b : rg_agree (rg_tab b) (ring b).
+Proof.
+  intros c t Hc Ht. unfold rg_tab. cbv zeta.
+  rewrite (by_colour_spec (fun c => tab64 (ring b c)) c Hc). apply tab64_spec, Ht.
+Qed.
+
+Lemma av_tab_agree p : av_agree (av_tab p) (av_of p).
+Proof.
+  unfold av_tab, av_of, av_compute, av_empty. cbv zeta. repeat split.
+  - intros c sq t Hc Hsq Ht. cbv beta iota delta [av_from]. rewrite nth_map_sq64 by exact Hsq. destruct (own_nonpawn (brd p) c sq); reflexivity.
+  - intros c t Hc Ht. cbv beta iota delta [av_all].
+    rewrite (by_colour_spec (fun c => tab64 (fun t => existsb (fun s => mem t (nth (N.to_nat s) (map (piece_targets (brd p)) squares64) []))
+                                                            (filter (own_nonpawn (brd p) c) squares64))) c Hc).
+    rewrite tab64_spec by exact Ht. cbn [orb]. unfold all_att. rewrite existsb_filter.
+    apply existsb_sq_ext. intros s Hs. rewrite nth_map_sq64 by exact Hs. reflexivity.
+  - intros c Hc. cbv beta iota delta [av_mob].
+    rewrite (by_colour_spec (fun c => fold_right (fun s acc => popcnt (fun t => mem t (nth (N.to_nat s) (map (piece_targets (brd p)) squares64) [])
+                                                                              && negb (tab64 (fun t => is_col (at_ (brd p) t) c) t)) + acc) 0
+                                                 (filter (own_nonpawn (brd p) c) squares64)) c Hc).
+    rewrite (sum_filter (fun s => popcnt (fun t => mem t (nth (N.to_nat s) (map (piece_targets (brd p)) squares64) [])
+                                                   && negb (tab64 (fun t => is_col (at_ (brd p) t) c) t)))).
+    rewrite Z.add_0_l. unfold mobility. rewrite bsum_sum64. apply sum64_ext. intros s Hs.
+    destruct (own_nonpawn (brd p) c s); [|reflexivity]. apply popcnt_ext. intros t Ht.
+    rewrite nth_map_sq64 by exact Hs. rewrite tab64_spec by exact Ht. reflexivity.
+Qed.
+
+Lemma flip_lt2 c : (c < 2)%N -> (flip c < 2)%N.
+Proof. unfold flip. lia. Qed.
+
+Lemma king_term_agree cfg a1 a2 r1 r2 c : av_agree a1 a2 -> rg_agree r1 r2 -> (c < 2)%N ->
+  king_term cfg a1 r1 c = king_term cfg a2 r2 c.
+Proof.
+  intros (_ & Hall & _) Hr Hc. pose proof (flip_lt2 c Hc) as Hf.
+  unfold king_term. destruct (use_attacks cfg); [|reflexivity]. cbv zeta.
+  rewrite (popcnt_ext (fun t => r1 c t && av_all a1 (flip c) t) (fun t => r2 c t && av_all a2 (flip c) t))
+    by (intros t Ht; rewrite Hr, Hall by assumption; reflexivity).
+  rewrite (popcnt_ext (fun t => r1 c t && av_all a1 c t) (fun t => r2 c t && av_all a2 c t))
+    by (intros t Ht; rewrite Hr, Hall by assumption; reflexivity).
+  rewrite (bbnum_ext64 (fun t => r1 c t && av_all a1 (flip c) t) (fun t => r2 c t && av_all a2 (flip c) t))
+    by (intros t Ht; rewrite Hr, Hall by assumption; reflexivity).
+  rewrite (bbnum_ext64 (fun t => r1 c t && av_all a1 c t) (fun t => r2 c t && av_all a2 c t))
+    by (intros t Ht; rewrite Hr, Hall by assumption; reflexivity).
+  rewrite (popcnt_ext (fun t => av_all a1 c t && r1 (flip c) t) (fun t => av_all a2 c t && r2 (flip c) t))
+    by (intros t Ht; rewrite Hr, Hall by assumption; reflexivity).
+  reflexivity.
+Qed.
+
+Lemma adv_mid_agree cfg a1 a2 p c : pos_ok p = true -> av_agree a1 a2 -> (c < 2)%N ->
+  adv_mid cfg a1 p c = adv_mid cfg a2 p c.
+Proof.
+  intros Hp (Hfrom & _ & _) Hc. unfold adv_mid. f_equal. apply bsum_ext; [exact Hp|]. intros pc s _ Hs.
+  unfold adv_mid_term.
+  assert (E : rook_trapped cfg a1 p c s = rook_trapped cfg a2 p c s).
+  { unfold rook_trapped. rewrite (popcnt_ext (av_from a1 c s) (av_from a2 c s)) by (intros t Ht; apply Hfrom; assumption). reflexivity. }
+  rewrite E. reflexivity.
+Qed.
+
+Lemma eval_core_rg_agree cfg a1 a2 r1 r2 p gp : pos_ok p = true -> av_agree a1 a2 -> rg_agree r1 r2 ->
+  eval_core_rg cfg a1 r1 p gp = eval_core_rg cfg a2 r2 p gp.
+Proof.
+  intros Hp Ha Hr. unfold eval_core_rg.
+  assert (HW : (WHITE < 2)%N) by (unfold WHITE; lia). assert (HB : (BLACK < 2)%N) by (unfold BLACK; lia).
+  rewrite (adv_mid_agree cfg a1 a2 p WHITE Hp Ha HW), (adv_mid_agree cfg a1 a2 p BLACK Hp Ha HB).
+  rewrite (king_term_agree cfg a1 a2 r1 r2 WHITE Ha Hr HW), (king_term_agree cfg a1 a2 r1 r2 BLACK Ha Hr HB).
+  destruct Ha as (_ & _ & Hmob). rewrite (Hmob WHITE HW), (Hmob BLACK HB). reflexivity.
+Qed.
+
+Theorem evaluate_tab_eq cfg p gp : evaluate_tab cfg p gp = evaluate cfg p gp.
+Proof.
+  unfold evaluate_tab, evaluate_tab_with, evaluate. destruct (pos_ok p) eqn:Hp; cbn [negb]; cbv iota; [|reflexivity].
+  destruct ((0 <=? gp) && (gp <=? Tables_gen.c_game_phase_max)); cbn [negb]; cbv iota; [|reflexivity]. apply f_equal. unfold eval_core.
+  transitivity (eval_core_rg cfg (av_of p) (ring (brd p)) p gp); [|apply eval_core_rg_ring].
+  apply eval_core_rg_agree; [exact Hp|apply av_tab_agree|apply rg_tab_agree].
+Qed.
+
+(** ** C15: evaluation.
+    A case = one position with the values the engine returned under a list of switch vectors.
+    [sw] numbers the five switches like harness/cmd_models.go evalSwitches: bit 0 UseLazyEval,
+    bit 1 UseAdvancedPieceEval, bit 2 UseAttacksInEval, bit 3 UseMobility, bit 4 UseKingEval;
+    every other field keeps the value of [EvalImpl.default_cfg]. *)
+Definition cfg_of_sw (sw : N) : eval_cfg :=
+  cfg_switches default_cfg (N.testbit sw 0%N) (N.testbit sw 1%N) (N.testbit sw 2%N) (N.testbit sw 3%N) (N.testbit sw 4%N).
+Definition eval_case_sw (f : FenSpec.str) (gp : Z) (c : N * Z) : bool :=
+  let '(sw, obs) := c in
+  eval_case_full f gp (N.testbit sw 0%N) (N.testbit sw 1%N) (N.testbit sw 2%N) (N.testbit sw 3%N) (N.testbit sw 4%N) obs.
+(* the switch vectors of the case on which model and engine differ: [eval_case_full] on every listed vector *)
+Definition eval_case_spec (c : string * Z * list (N * Z)) : list N :=
+  let '(fen, gp, l) := c in
+  let f := str_of_string fen in
+  map fst (filter (fun x => negb (eval_case_sw f gp x)) l).
+(* the same list as it is computed: FEN parsed once, attack tables built once ([eval_case_eq]) *)
+Definition eval_case (c : string * Z * list (N * Z)) : list N :=
+  let '(fen, gp, l) := c in
+  match FenSpec.parse (str_of_string fen) with
+  | Some p =>
+      let av := av_tab p in let rg := rg_tab (brd p) in
+      map fst (filter (fun x => negb (match evaluate_tab_with av rg (cfg_of_sw (fst x)) p gp with
+                                      | Some v => v =? snd x | None => false end)) l)
+  | None => map fst l
+  end.
+Lemma eval_case_eq c : eval_case c = eval_case_spec c.
+Proof.
+  destruct c as [[fen gp] l]. unfold eval_case, eval_case_spec. cbv zeta.
+  destruct (FenSpec.parse (str_of_string fen)) as [p|] eqn:Ep.
+  - f_equal. apply filter_ext. intros [sw obs]. cbn [fst snd]. unfold eval_case_sw, eval_case_full. rewrite Ep.
+    pose proof (evaluate_tab_eq (cfg_of_sw sw) p gp) as E. unfold evaluate_tab in E. rewrite E.
+    unfold cfg_of_sw. reflexivity.
+  - f_equal. induction l as [|[sw obs] l IH]; [reflexivity|]. cbn [filter].
+    unfold eval_case_sw at 1, eval_case_full. rewrite Ep. cbn [negb]. f_equal. exact IH.
+Qed.
+(* (case number, failing switch vectors) *)
+Fixpoint eval_mism_from (i : nat) (l : list (string * Z * list (N * Z))) : list (nat * list N) :=
+  match l with
+  | [] => []
+  | c :: r => (match eval_case c with [] => [] | bad => [(i, bad)] end) ++ eval_mism_from (S i) r
+  end.
+Definition eval_mismatches := eval_mism_from O.
+
+(** The engine's evaluation configuration at start-up, every field of config.Settings.Eval in
+    declaration order (evalconfig.go:29-58), booleans as 0/1.  The first two fields (UsePawnCache,
+    PawnCacheSize, "not implemented yet") are read by no code of the engine and are not part of
+    [eval_cfg]; their defaults are compared all the same. *)
+Definition zb (b : bool) : Z := if b then 1 else 0.
+Definition cfg_fields (c : eval_cfg) : list Z :=
+  [ zb (use_lazy c); lazy_threshold c; tempo c; zb (use_attacks c); zb (use_mobility c); mobility_bonus c;
+    zb (use_adv c); bishop_pair_bonus c; minor_behind_pawn_bonus c; bishop_pawn_malus c;
+    bishop_center_aim_bonus c; bishop_blocked_malus c; rook_on_queen_file_bonus c; rook_on_open_file_bonus c;
+    rook_trapped_malus c; king_ring_attacks_bonus c; zb (use_king c); king_danger_malus c; king_defender_bonus c ].
+Definition pawn_cache_defaults : list Z := [0; 64].
+Definition engine_fields (c : eval_cfg) : list Z := pawn_cache_defaults ++ cfg_fields c.
+
+(* (field number, engine, model) of the fields that differ; a missing field is None *)
+Fixpoint fields_mism (i : nat) (eng model : list Z) {struct eng} : list (nat * option Z * option Z) :=
+  match eng with
+  | [] => map (fun m => (i, None, Some m)) model
+  | e :: er =>
+      match model with
+      | [] => (i, Some e, None) :: fields_mism (S i) er []
+      | m :: mr => (if e =? m then [] else [(i, Some e, Some m)]) ++ fields_mism (S i) er mr
+      end
+  end.
+Definition eval_defaults_mismatches (engine : list Z) := fields_mism O engine (engine_fields default_cfg).
+
+(** the checkers mean what they say *)
+Lemma fields_mism_nil : forall eng model i, fields_mism i eng model = [] -> eng = model.
+Proof.
+  induction eng as [|e er IH]; intros [|m mr] i H; cbn in H; try discriminate; [reflexivity|].
+  destruct (e =? m) eqn:E; [|discriminate]. apply Z.eqb_eq in E. subst. f_equal. exact (IH _ _ H).
+Qed.
+
+Lemma eval_defaults_check_sound d : eval_defaults_mismatches d = [] -> d = engine_fields default_cfg.
+Proof. apply fields_mism_nil. Qed.
+
+(* the field list determines the settings record: no field of the model is left out of the comparison *)
+Lemma zb_inj a b : zb a = zb b -> a = b.
+Proof. destruct a, b; cbn; intros H; try reflexivity; discriminate. Qed.
+Lemma cfg_fields_inj c1 c2 : cfg_fields c1 = cfg_fields c2 -> c1 = c2.
+Proof.
+  destruct c1, c2. unfold cfg_fields. cbn. intros H. injection H as H1 H2 H3 H4 H5 H6 H7 H8 H9 H10 H11 H12 H13 H14 H15 H16 H17 H18 H19.
+  apply zb_inj in H1, H4, H5, H7, H17. subst. reflexivity.
+Qed.
+
+Lemma eval_case_full_sound fen gp lz adv att mob kng obs :
+  eval_case_full fen gp lz adv att mob kng obs = true ->
+  exists p, FenSpec.parse fen = Some p /\ evaluate (cfg_switches default_cfg lz adv att mob kng) p gp = Some obs.
+Proof.
+  unfold eval_case_full. destruct (FenSpec.parse fen) as [p|]; [|discriminate].
+  destruct (evaluate _ p gp) as [v|] eqn:Ev; [|discriminate]. intros H. apply Z.eqb_eq in H. subst. exists p. split; [reflexivity|exact Ev].
+Qed.
+
+Lemma eval_mism_from_nil l : forall i, eval_mism_from i l = [] -> forall c, In c l -> eval_case c = [].
+Proof.
+  induction l as [|c r IH]; intros i H c0 Hc; [destruct Hc|]. cbn [eval_mism_from] in H.
+  apply app_eq_nil in H as [H1 H2]. destruct Hc as [<-|Hc]; [|exact (IH _ H2 _ Hc)].
+  destruct (eval_case c); [reflexivity|discriminate].
+Qed.
+
+(* an empty mismatch list: on every listed position, under every listed switch vector, the model
+   [evaluate] returns exactly the value the engine returned *)
+Theorem eval_cases_check_sound cases :
+  eval_mismatches cases = [] ->
+  forall fen gp l sw obs, In (fen, gp, l) cases -> In (sw, obs) l ->
+  exists p, FenSpec.parse (str_of_string fen) = Some p /\ evaluate (cfg_of_sw sw) p gp = Some obs.
+Proof.
+  intros H fen gp l sw obs Hc Hl. pose proof (eval_mism_from_nil _ _ H _ Hc) as E. rewrite eval_case_eq in E. cbn [eval_case_spec] in E.
+  apply map_eq_nil in E.
+  assert (Hok : eval_case_sw (str_of_string fen) gp (sw, obs) = true).
+  { destruct (eval_case_sw (str_of_string fen) gp (sw, obs)) eqn:Eo; [reflexivity|exfalso].
+    assert (Hin : In (sw, obs) (filter (fun x => negb (eval_case_sw (str_of_string fen) gp x)) l))
+      by (apply filter_In; split; [exact Hl|cbv beta; rewrite Eo; reflexivity]).
+    rewrite E in Hin. destruct Hin. }
+  exact (eval_case_full_sound _ _ _ _ _ _ _ _ Hok).
+Qed.
+
+(* the 32 switch vectors reach every combination of the five switches *)
+Lemma cfg_of_sw_all lz adv att mob kng :
+  exists sw, (sw < 32)%N /\ cfg_of_sw sw = cfg_switches default_cfg lz adv att mob kng.
+Proof.
+  exists (N.b2n lz + 2 * N.b2n adv + 4 * N.b2n att + 8 * N.b2n mob + 16 * N.b2n kng)%N.
+  destruct lz, adv, att, mob, kng; (split; [reflexivity|reflexivity]).
+Qed.
+
+(** ** Assumptions *)
+Print Assumptions evaluate_tab_eq.
+Print Assumptions eval_case_eq.
+Print Assumptions eval_cases_check_sound.
+Print Assumptions eval_defaults_check_sound.
+Print Assumptions cfg_fields_inj.
+Print Assumptions cfg_of_sw_all.
